@@ -10,8 +10,8 @@ cp $WT/demo_$PID.py $OUT/demo.py
 cd $WT
 echo "== tests with change"; PYTHONPATH=$WT /venv/bin/python -m pytest -q -p no:cacheprovider 2>&1 | tail -1 | tee $OUT/.tests
 echo "== demo with change"; if PYTHONPATH=$WT /venv/bin/python demo_$PID.py > $OUT/.demo_with 2>&1; then echo "demo PASSES with change (bad)"; W=0; else echo "demo fails with change (good)"; W=1; fi
-git stash -q
+git apply -R $OUT/patch.diff
 echo "== demo without change"; if PYTHONPATH=$WT /venv/bin/python demo_$PID.py > $OUT/.demo_without 2>&1; then echo "demo passes without change (good)"; O=1; else echo "demo FAILS without change (bad)"; O=0; fi
-git stash pop -q
+git apply $OUT/patch.diff
 tail -3 $OUT/.demo_with
 echo "with=$W without=$O"
